@@ -830,6 +830,7 @@ func (w *World) opDiffLinks(op *Op) {
 	// --- DiffLinks
 	disk := w.disks[d]
 	preCapture := false // take a clone / open a cursor on the handles before diffing them
+	captureOld := true
 	runDL := func(cache mast.NodeCache, failAt int) (added, removed []string, nonString int, loaded []string, calls int, rr callResult, ok bool) {
 		oldM, newM, ok := loadPair(cache)
 		if !ok {
@@ -840,7 +841,7 @@ func (w *World) opDiffLinks(op *Op) {
 				if _, err := newM.Clone(ctx); err != nil {
 					return err
 				}
-				if oldM != nil {
+				if oldM != nil && captureOld {
 					if _, err := oldM.Cursor(ctx); err != nil {
 						return err
 					}
@@ -1081,9 +1082,9 @@ func (w *World) opDiffLinks(op *Op) {
 			return
 		}
 		{
-			preCapture = true
+			preCapture, captureOld = true, false // only the new side's handle has been cloned
 			_, _, _, loadedCap, _, rrc, ok := runDL(nil, 0)
-			preCapture = false
+			preCapture, captureOld = false, true
 			if !ok {
 				return
 			}
